@@ -86,7 +86,7 @@ def build_harness():
     lock = os.path.join(HARNESS, "Cargo.lock")
     if not os.path.exists(lock):
         shutil.copy(os.path.join(REPO, "Cargo.lock"), lock)
-    env = dict(os.environ, CARGO_NET_OFFLINE="true")
+    env = dict(os.environ, CARGO_NET_OFFLINE="true", RUSTUP_TOOLCHAIN="1.88.0")
     t0 = time.time()
     p = subprocess.run(["cargo", "build", "--release", "--offline"], cwd=HARNESS, env=env,
                        stdout=subprocess.PIPE, stderr=subprocess.STDOUT, text=True)
@@ -125,7 +125,7 @@ def parse_tlc(text):
 
 def tlc_cmd(module, cfg, workers, metadir, extra=None):
     cmd = ["tlc", "-workers", str(workers), "-metadir", metadir, "-cleanup", "-noGenerateSpecTE",
-           "-config", os.path.join(SPEC, cfg)]
+           "-config", cfg if os.path.isabs(cfg) else os.path.join(SPEC, cfg)]
     if extra:
         cmd += extra
     cmd.append(os.path.join(SPEC, module))
@@ -183,7 +183,11 @@ def cached_model_run(name, module, cfg, files, workers=1, timeout=3600, export=T
     With export=True the behaviours printed by the EmitEdge action constraint are stored gzipped.
     Returns dict(stats..., edges_file)."""
     ensure_dirs()
-    key = spec_hash(files + [cfg], extra=name + str(extra))
+    if os.path.isabs(cfg):
+        with open(cfg) as fh:
+            key = spec_hash(files, extra=name + str(extra) + fh.read())
+    else:
+        key = spec_hash(files + [cfg], extra=name + str(extra))
     cdir = os.path.join(WORK, "cache", f"{name}_{key}")
     meta = os.path.join(cdir, "meta.json")
     edges = os.path.join(cdir, "edges.gz")
@@ -232,40 +236,85 @@ def validate_trace(module, cfg, trace_path, timeout=900, heap="4g"):
     return accepted, info
 
 
-def pipe_edges_to(edges_file, cmd, limit=None, stride=1):
-    """Feeds exported behaviours to a harness command; returns its stdout lines (parsed JSON)."""
-    p = subprocess.Popen(cmd, stdin=subprocess.PIPE, stdout=subprocess.PIPE, text=True)
+def pipe_edges_to(edges_file, cmd, limit=None, stride=1, procs=1):
+    """Feeds exported behaviours to `procs` copies of a harness command (round robin); returns
+    their stdout lines (parsed JSON) and the number of behaviours fed."""
     import threading
+    ps = [subprocess.Popen(cmd, stdin=subprocess.PIPE, stdout=subprocess.PIPE, text=True)
+          for _ in range(procs)]
     outs = []
+    lock = threading.Lock()
 
-    def reader():
+    def reader(p):
         for line in p.stdout:
             line = line.strip()
             if line:
                 try:
-                    outs.append(json.loads(line))
+                    o = json.loads(line)
                 except Exception:
-                    outs.append({"garbage": line[:300]})
-    th = threading.Thread(target=reader)
-    th.start()
+                    o = {"garbage": line[:300]}
+                with lock:
+                    outs.append(o)
+    ths = [threading.Thread(target=reader, args=(p,)) for p in ps]
+    for th in ths:
+        th.start()
     n = 0
     with gzip.open(edges_file, "rt") as fh:
         for i, line in enumerate(fh):
             if stride > 1 and i % stride:
                 continue
             try:
-                p.stdin.write(line)
+                ps[n % procs].stdin.write(line)
             except BrokenPipeError:
                 break
             n += 1
             if limit and n >= limit:
                 break
-    p.stdin.close()
-    th.join()
-    p.wait()
-    if p.returncode != 0:
-        raise ToolError(f"harness command {cmd[0]} exited {p.returncode}")
+    for p in ps:
+        p.stdin.close()
+    for th in ths:
+        th.join()
+    for p in ps:
+        p.wait()
+        if p.returncode != 0:
+            raise ToolError(f"harness command {cmd[0]} exited {p.returncode}")
     return outs, n
+
+
+def write_cfg(path, spec, constants, invariants=(), properties=(), view=None, post=None,
+              constraint=None, action_constraint=None, init_next=None):
+    """Writes a TLC config. `constants` maps name -> TLA+ text, or ("<-", name) for substitution."""
+    lines = []
+    if init_next:
+        lines += [f"INIT {init_next[0]}", f"NEXT {init_next[1]}"]
+    else:
+        lines.append(f"SPECIFICATION {spec}")
+    lines.append("CONSTANTS")
+    for k, v in constants.items():
+        if isinstance(v, tuple):
+            lines.append(f"  {k} <- {v[1]}")
+        else:
+            lines.append(f"  {k} = {v}")
+    if view:
+        lines.append(f"VIEW {view}")
+    if invariants:
+        lines.append("INVARIANTS " + " ".join(invariants))
+    if properties:
+        lines.append("PROPERTIES " + " ".join(properties))
+    if constraint:
+        lines.append(f"CONSTRAINT {constraint}")
+    if action_constraint:
+        lines.append(f"ACTION_CONSTRAINT {action_constraint}")
+    if post:
+        lines.append(f"POSTCONDITION {post}")
+    lines.append("CHECK_DEADLOCK FALSE")
+    with open(path, "w") as fh:
+        fh.write("\n".join(lines) + "\n")
+    return path
+
+
+def tla_set(xs):
+    return "{" + ", ".join(json.dumps(x) if isinstance(x, str) else str(x) for x in xs) + "}"
 
 
 def sample_edges(edges_file, k=3):
